@@ -41,7 +41,8 @@ def rfc_encode(m):
     if k == 'keepalive':
         return bytes([T_KEEPALIVE])
     if k == 'msg_reject':
-        return bytes([T_REJECT, m['rej_id'], m['reason']])
+        # RFC 9174 5.1.2: reason code first, then the rejected message header
+        return bytes([T_REJECT, m['reason'], m['rej_id']])
     raise ValueError(k)
 
 
@@ -92,7 +93,8 @@ def rfc_decode_one(data, pos, in_conn):
     elif t == T_TERM:
         m = {'k': 'sess_term', 'flags': r.u('B'), 'reason': r.u('B')}
     elif t == T_REJECT:
-        m = {'k': 'msg_reject', 'rej_id': r.u('B'), 'reason': r.u('B')}
+        reason = r.u('B')
+        m = {'k': 'msg_reject', 'rej_id': r.u('B'), 'reason': reason}
     elif t == T_INIT:
         ka = r.u('H')
         sm = r.u('Q')
